@@ -383,7 +383,7 @@ static Plan gen_req(Rng &r, bool thorough) {
 }
 // ---- C05 generator: arbitrary history, then [abort | reset communication], then a clean transfer
 static Plan gen_wedge(Rng &r, bool thorough) {
-    Plan p; gen_cfg(r, p);
+    Plan p; gen_cfg(r, p); p.cfg["resetfail"] = 1;
     SdoDict d; d.build(p, 1);
     int64_t srv = r.below(2);
     int n = (int)r.range(0, thorough ? 120 : 50);
@@ -391,6 +391,7 @@ static Plan gen_wedge(Rng &r, bool thorough) {
         int c = (int)r.below(10);
         if (c < 6) { Frame f = r.chance(3, 4) ? gen_request(r, d) : sdo_garbage(r, d); p.ops.push_back(Op("g", {r.chance(5, 6) ? srv : (int64_t)r.below(2), (int64_t)f.dlc, r.chance(1, 10) ? (int64_t)r.below(2) : -1}, std::vector<uint8_t>(f.d, f.d + 8))); }
         else if (c < 8) { Op b = gen_begin(r, 0, r.chance(1, 2), thorough); b.a[1] = srv; p.ops.push_back(b); int k = (int)r.range(0, 8); for (int j = 0; j < k; j++) p.ops.push_back(Op("step", {0, r.chance(1, 5) ? (int64_t)r.below(3) : -1})); if (r.chance(1, 2)) { Frame f = sdo_garbage(r, d); p.ops.push_back(Op("g", {srv, 8}, std::vector<uint8_t>(f.d, f.d + 8))); } }
+        else if (c == 8 && r.chance(1, 2)) { uint8_t cmd = r.pick<uint8_t>({0xC2, 0xC6, 0xC0, 0x21, 0x23, 0x40, 0xA0}); p.ops.push_back(Op("g", {srv, 8, -1}, {cmd, 0x05, 0x23, 0, 4, 0, 0, 0})); }   // initiate on the entry whose type refuses the rewind
         else if (c == 8) p.ops.push_back(Op("tick", {r.range(1, 20)}));
         else { Frame f = sdo_garbage(r, d); p.ops.push_back(Op("g", {(int64_t)r.below(2), (int64_t)f.dlc}, std::vector<uint8_t>(f.d, f.d + 8))); }
     }
